@@ -550,6 +550,297 @@ var sectHistory = ev.Register(&ev.P[sectCase]{
 })
 
 // ------------------------------------------------------------------------------------------
+// 1c. one object, its methods in different orders: what a method returns depends on the receiver's
+// construction arguments and the method's own arguments only, not on which other methods ran before
+
+type mcall struct {
+	Method string
+	Args   []int // int arguments as they are, bool arguments as 0/1
+}
+
+type orderCase struct {
+	Kind   string
+	T      ref.DT
+	P1, P2 int     // further construction parameters (gender / sect / first weekday / index)
+	Calls  []mcall // executed in this order on twin A
+	Perm   []int   // twin B executes Calls[Perm[0]], Calls[Perm[1]], ...
+}
+
+var objKinds = []string{"Solar", "Lunar", "LunarNew", "EightChar", "Yun", "DaYun", "LiuNian", "LunarYear", "LunarMonth", "LunarTime", "SolarWeek", "SolarMonth", "SolarSeason", "SolarHalfYear", "SolarYear", "Tao", "Foto", "NineStar", "JieQi"}
+
+// buildObj constructs the object of a case from scratch (the lunar-year cache is emptied first so that
+// cached tables are rebuilt, too).
+func buildObj(c orderCase) interface{} {
+	calendar.VerifResetYearCache()
+	s := gen.Solar(c.T)
+	l := s.GetLunar()
+	switch c.Kind {
+	case "Solar":
+		return s
+	case "Lunar":
+		return l
+	case "LunarNew":
+		return calendar.NewLunar(l.GetYear(), l.GetMonth(), l.GetDay(), c.T.H, c.T.Mi, c.T.S)
+	case "EightChar":
+		ec := l.GetEightChar()
+		ec.SetSect(1 + c.P1%2)
+		return ec
+	case "Yun":
+		return l.GetEightChar().GetYunBySect(c.P1%2, 1+c.P2%2)
+	case "DaYun":
+		return l.GetEightChar().GetYunBySect(c.P1%2, 1+c.P2%2).GetDaYun()[c.P2%10]
+	case "LiuNian":
+		return l.GetEightChar().GetYunBySect(c.P1%2, 1+c.P2%2).GetDaYun()[1+c.P2%9].GetLiuNian()[c.P1%10]
+	case "LunarYear":
+		return calendar.NewLunarYear(l.GetYear())
+	case "LunarMonth":
+		return calendar.NewLunarMonthFromYm(l.GetYear(), l.GetMonth())
+	case "LunarTime":
+		return l.GetTime()
+	case "SolarWeek":
+		return calendar.NewSolarWeekFromYmd(c.T.Y, c.T.M, c.T.D, c.P1%7)
+	case "SolarMonth":
+		return calendar.NewSolarMonthFromYm(c.T.Y, c.T.M)
+	case "SolarSeason":
+		return calendar.NewSolarSeasonFromYm(c.T.Y, c.T.M)
+	case "SolarHalfYear":
+		return calendar.NewSolarHalfYearFromYm(c.T.Y, c.T.M)
+	case "SolarYear":
+		return calendar.NewSolarYearFromYear(c.T.Y)
+	case "Tao":
+		return l.GetTao()
+	case "Foto":
+		return l.GetFoto()
+	case "NineStar":
+		return l.GetDayNineStar()
+	case "JieQi":
+		return l.GetPrevJieQi()
+	}
+	return s
+}
+
+type methodSig struct {
+	Name string
+	In   []reflect.Kind
+}
+
+var methodPool = map[string][]methodSig{}
+
+// methodsOf lists the exported non-setter methods whose parameters are all int or bool and that return something.
+func methodsOf(kind string, obj interface{}) []methodSig {
+	if ms, ok := methodPool[kind]; ok {
+		return ms
+	}
+	var out []methodSig
+	t := reflect.TypeOf(obj)
+	for i := 0; i < t.NumMethod(); i++ {
+		m := t.Method(i)
+		if strings.HasPrefix(m.Name, "Set") || strings.HasPrefix(m.Name, "Verif") || m.Type.NumOut() == 0 {
+			continue
+		}
+		ok := true
+		var in []reflect.Kind
+		for k := 1; k < m.Type.NumIn(); k++ {
+			kd := m.Type.In(k).Kind()
+			if kd != reflect.Int && kd != reflect.Bool {
+				ok = false
+			}
+			in = append(in, kd)
+		}
+		if ok {
+			out = append(out, methodSig{m.Name, in})
+		}
+	}
+	methodPool[kind] = out
+	return out
+}
+
+func argPool(method string, k reflect.Kind) []int {
+	switch {
+	case k == reflect.Bool:
+		return []int{0, 1}
+	case strings.Contains(method, "Sect") || method == "GetYun":
+		return []int{1, 2, 3, 1, 2, 3, 0, 4}
+	case strings.HasPrefix(method, "Next"):
+		return []int{-104, -53, -52, -13, -2, -1, 0, 0, 1, 2, 12, 13, 52, 53, 104}
+	case method == "GetWeeks":
+		return []int{0, 1, 2, 3, 4, 5, 6}
+	case strings.HasSuffix(method, "By"):
+		return []int{0, 1, 2, 5, 9, 10, 11, 13}
+	case method == "GetMonth":
+		return []int{-12, -6, -4, -1, 1, 2, 6, 11, 12, 13}
+	}
+	return []int{-1, 0, 1, 2, 3, 5, 7, 12}
+}
+
+// renderResult renders what a method returned: library objects by the digest of their own accessors, containers
+// element-wise (first two and last element of a container of library objects digested, the others by their printed form).
+func renderResult(v reflect.Value) string {
+	if !v.IsValid() {
+		return "<invalid>"
+	}
+	isObj := func(x reflect.Value) bool {
+		return x.Kind() == reflect.Ptr && !x.IsNil() && x.Elem().Kind() == reflect.Struct && strings.Contains(x.Elem().Type().PkgPath(), "lunar-go")
+	}
+	if isObj(v) {
+		return digestString(dig.Of(v.Interface(), 0))
+	}
+	var elems []reflect.Value
+	if l, ok := v.Interface().(*list.List); ok && l != nil {
+		for e := l.Front(); e != nil; e = e.Next() {
+			elems = append(elems, reflect.ValueOf(e.Value))
+		}
+	} else if v.Kind() == reflect.Slice {
+		for i := 0; i < v.Len(); i++ {
+			elems = append(elems, v.Index(i))
+		}
+	} else {
+		return dig.Render(v, "r", map[string]string{})
+	}
+	var sb strings.Builder
+	fmt.Fprintf(&sb, "%d[", len(elems))
+	for i, e := range elems {
+		if isObj(e) && (i < 2 || i == len(elems)-1) {
+			sb.WriteString(digestString(dig.Of(e.Interface(), 0)))
+		} else {
+			sb.WriteString(dig.Render(e, "e", map[string]string{}))
+		}
+		sb.WriteByte(';')
+	}
+	sb.WriteByte(']')
+	return sb.String()
+}
+
+func invoke(obj interface{}, c mcall) (out string) {
+	defer func() {
+		if r := recover(); r != nil {
+			out = fmt.Sprintf("PANIC:%v", r)
+		}
+	}()
+	m := reflect.ValueOf(obj).MethodByName(c.Method)
+	if !m.IsValid() {
+		return "no such method"
+	}
+	var in []reflect.Value
+	for k, a := range c.Args {
+		if m.Type().In(k).Kind() == reflect.Bool {
+			in = append(in, reflect.ValueOf(a != 0))
+		} else {
+			in = append(in, reflect.ValueOf(a))
+		}
+	}
+	return renderResult(m.Call(in)[0])
+}
+
+var methodOrder = ev.Register(&ev.P[orderCase]{
+	Name: "method_order_independence",
+	Rule: "a generated object of every library type (civil date, lunar date by both routes, eight characters, fortune objects, lunar year/month/hour, civil week/month/season/half-year/year, Taoist/Buddhist date, nine star, term) and a generated list of 1..24 calls to its exported non-setter methods with int/bool arguments (discovered by reflection; convention arguments, whole-day flags, first weekdays, step counts incl. 0, ±52, ±53) — oracle: each call returns the same rendered result (library objects by the digest of all their accessors) (a) on a fresh object that receives only this call, (b) on ONE object that receives the whole list in order, (c) on another object that receives the list in a generated permutation: a lazily filled field, a memo keyed on too little, a stepping method that writes to its receiver, or an accessor that edits a shared table shows as a difference; non-trivial: >= 3 distinct methods and >= 1 call with arguments",
+	Check: func(c orderCase) error {
+		a, b := buildObj(c), buildObj(c)
+		if a == nil || (reflect.ValueOf(a).Kind() == reflect.Ptr && reflect.ValueOf(a).IsNil()) {
+			return nil
+		}
+		resA := make([]string, len(c.Calls))
+		for i, k := range c.Calls {
+			resA[i] = invoke(a, k)
+		}
+		resB := make([]string, len(c.Calls))
+		for _, i := range c.Perm {
+			resB[i] = invoke(b, c.Calls[i])
+		}
+		for i, k := range c.Calls {
+			fresh := invoke(buildObj(c), k)
+			if resA[i] != fresh {
+				return fmt.Errorf("%s built for %v (%d,%d): call %d %s%v returns a different result after the calls %v than on a fresh object\n fresh:  %.500q\n reused: %.500q", c.Kind, c.T, c.P1, c.P2, i, k.Method, k.Args, c.Calls[:i], diffHint(fresh, resA[i]), diffHint(resA[i], fresh))
+			}
+			if resB[i] != fresh {
+				var before []mcall
+				for _, j := range c.Perm {
+					if j == i {
+						break
+					}
+					before = append(before, c.Calls[j])
+				}
+				return fmt.Errorf("%s built for %v (%d,%d): call %s%v returns a different result after the calls %v than on a fresh object\n fresh:  %.500q\n reused: %.500q", c.Kind, c.T, c.P1, c.P2, k.Method, k.Args, before, diffHint(fresh, resB[i]), diffHint(resB[i], fresh))
+			}
+		}
+		return nil
+	},
+	Class: func(c orderCase) ([]string, bool) {
+		names := map[string]bool{}
+		withArgs := false
+		for _, k := range c.Calls {
+			names[k.Method] = true
+			if len(k.Args) > 0 {
+				withArgs = true
+			}
+		}
+		return []string{"obj:" + c.Kind}, len(names) >= 3 && withArgs
+	},
+	Require: []string{"obj:Lunar", "obj:Solar", "obj:Yun", "obj:LunarYear", "obj:SolarWeek", "obj:SolarMonth", "obj:EightChar", "obj:LunarTime"},
+})
+
+// diffHint returns the lines of x that do not occur in y (digests are line-per-accessor), or x itself.
+func diffHint(x, y string) string {
+	if !strings.Contains(x, "\n") {
+		return x
+	}
+	have := map[string]bool{}
+	for _, l := range strings.Split(y, "\n") {
+		have[l] = true
+	}
+	var out []string
+	for _, l := range strings.Split(x, "\n") {
+		if !have[l] {
+			out = append(out, l)
+		}
+	}
+	return strings.Join(out, " | ")
+}
+
+func genOrder(t *rapid.T) orderCase {
+	c := orderCase{Kind: rapid.SampledFrom(objKinds).Draw(t, "kind"), T: gen.Moment(t), P1: rapid.IntRange(0, 13).Draw(t, "p1"), P2: rapid.IntRange(0, 19).Draw(t, "p2")}
+	if rapid.IntRange(0, 3).Draw(t, "late") == 0 {
+		c.T.H = 23
+	}
+	obj := buildObj(c)
+	if obj == nil || (reflect.ValueOf(obj).Kind() == reflect.Ptr && reflect.ValueOf(obj).IsNil()) {
+		c.Kind = "Lunar"
+		obj = buildObj(c)
+	}
+	ms := methodsOf(c.Kind, obj)
+	var withArgs []methodSig
+	for _, m := range ms {
+		if len(m.In) > 0 {
+			withArgs = append(withArgs, m)
+		}
+	}
+	n := rapid.IntRange(1, 24).Draw(t, "ncalls")
+	for i := 0; i < n; i++ {
+		pool := ms
+		if len(withArgs) > 0 && rapid.IntRange(0, 2).Draw(t, "argful") > 0 { // methods with arguments are few among hundreds: weight them
+			pool = withArgs
+		}
+		m := pool[rapid.IntRange(0, len(pool)-1).Draw(t, "m")]
+		k := mcall{Method: m.Name}
+		for _, kd := range m.In {
+			k.Args = append(k.Args, rapid.SampledFrom(argPool(m.Name, kd)).Draw(t, "arg"))
+		}
+		c.Calls = append(c.Calls, k)
+	}
+	c.Perm = rapid.Permutation(seqInts(n)).Draw(t, "perm")
+	return c
+}
+
+func seqInts(n int) []int {
+	out := make([]int, n)
+	for i := range out {
+		out[i] = i
+	}
+	return out
+}
+
+// ------------------------------------------------------------------------------------------
 // 2. concurrent programs
 
 type concCase struct {
@@ -682,7 +973,7 @@ func runConcurrent(c concCase) error {
 
 var concurrent = ev.Register(&ev.P[concCase]{
 	Name:  "concurrent_equals_sequential",
-	Rule:  "generated concurrent programs: 2..16 goroutines, each a generated list of calls over overlapping years (the one-slot cache thrashes), with read-only accessor bursts on a Lunar/Solar/LunarYear/LunarMonth shared by all goroutines (first-use lazy paths included), GOMAXPROCS in {1,2,16}, Gosched sprinkled; oracle: every goroutine's results equal the sequential reference and the lock is free afterwards; the same generated programs are re-run by a child process built with -race, which must report no data race, and a child that dies with the runtime's 'all goroutines are asleep' is a violation (a child timeout is inconclusive, never a violation); non-trivial: >= 2 goroutines touch different years",
+	Rule:  "generated concurrent programs: 2..16 goroutines, each a generated list of calls over overlapping years (the one-slot cache thrashes), with read-only accessor bursts on a Lunar/Solar/LunarYear/LunarMonth shared by all goroutines (first-use lazy paths included), GOMAXPROCS in {1,2,16}, Gosched sprinkled; oracle: every goroutine's results equal the sequential reference and the lock is free afterwards; the same generated programs are re-run by a child process built with -race, which must report no data race, and a child that dies with the runtime's 'all goroutines are asleep' is a violation (a child timeout is inconclusive, never a violation); a third of the programs are 'mirror' programs — every goroutine runs the SAME short call list of one kind over years that differ by typical cache strides (16, 32, 60, 64, 128, 256), the shape that exposes a check-then-act cache which is free of data races yet hands one caller another caller's entry; non-trivial: >= 2 goroutines touch different years",
 	Check: runConcurrent,
 	Class: func(c concCase) ([]string, bool) {
 		ys := map[int]bool{}
@@ -692,12 +983,15 @@ var concurrent = ev.Register(&ev.P[concCase]{
 			}
 		}
 		ls := []string{fmt.Sprintf("procs:%d", c.Procs)}
+		if len(c.Progs) >= 2 && reflect.DeepEqual(c.Progs[0], c.Progs[1]) {
+			ls = append(ls, "mirror")
+		}
 		if len(ys) >= 2 && len(c.Progs) >= 2 {
 			return append(ls, "thrash"), true
 		}
 		return ls, false
 	},
-	Require: []string{"thrash", "procs:1", "procs:16"},
+	Require: []string{"thrash", "procs:1", "procs:16", "mirror"},
 })
 
 func genConc(t *rapid.T) concCase {
@@ -714,6 +1008,31 @@ func genConc(t *rapid.T) concCase {
 	}
 	if rapid.IntRange(0, 3).Draw(t, "lazyFirst") == 0 {
 		c.Burst = append([]string{"GetEightChar"}, c.Burst...)
+	}
+	if rapid.IntRange(0, 2).Draw(t, "mirror") == 0 {
+		// every goroutine runs the same short program of one kind, years a cache stride apart
+		kind := rapid.SampledFrom([]string{"ReverseBaZi", "SolarToLunar", "LunarYearTable", "TermTable", "Fortune", "NewLunar", "LunarMonthNext", "EightCharFull"}).Draw(t, "mirrorKind")
+		n := rapid.IntRange(2, 5).Draw(t, "len")
+		var p []call
+		for k := 0; k < n; k++ {
+			x := genCall(t, base)
+			x.Kind = kind
+			x.A = base + rapid.SampledFrom([]int{0, 64, -64, 60, 128, 32, 16, 256, 0, 64}).Draw(t, "stride")
+			if x.A < 2 {
+				x.A = 2
+			}
+			if x.A > 9990 {
+				x.A = 9990
+			}
+			p = append(p, x)
+		}
+		if g < 4 {
+			g = 4 + g
+		}
+		for i := 0; i < g; i++ {
+			c.Progs = append(c.Progs, append([]call(nil), p...))
+		}
+		return c
 	}
 	for i := 0; i < g; i++ {
 		n := rapid.IntRange(1, 12).Draw(t, "len")
@@ -937,6 +1256,7 @@ func TestC09(t *testing.T) {
 		}
 		return sectCase{m, cs}
 	})
+	methodOrder.Rapid(ev.Share(ev.Pick(4000, 80000)), genOrder)
 	freshProcess.Rapid(ev.Share(ev.Pick(400, 6400)), func(t *rapid.T) freshCase {
 		eraCall := func(label string) call {
 			base := gen.Year(t, 3, 9990)
@@ -957,7 +1277,7 @@ func TestC09(t *testing.T) {
 		}
 		return freshCase{History: h, Probe: eraCall("p")}
 	})
-	concurrent.Rapid(ev.Share(ev.Pick(120, 2400)), genConc)
+	concurrent.Rapid(ev.Share(ev.Pick(480, 4800)), genConc)
 	// race-detector batches: the same generator, run in the -race child
 	nb := ev.Pick(1, 4)
 	per := ev.Pick(5, 40)
